@@ -235,13 +235,12 @@ class Policy:
     def remove_policies(self, sec, ptype, rules):
         """RemovePolicies removes policy rules from the model."""
 
-        for rule in rules:
-            if not self.has_policy(sec, ptype, rule):
+        for i, rule in enumerate(rules):
+            if not self.has_policy(sec, ptype, rule) or rule in rules[:i]:
                 return False
 
         for rule in rules:
-            if rule in self[sec][ptype].policy:
-                self[sec][ptype].policy.remove(rule)
+            self[sec][ptype].policy.remove(rule)
 
         return True
 
